@@ -224,7 +224,7 @@ class NKnobs(object):
         self.max_branch = 4
         self.max_states = 12
         self.max_roots = 3
-        self.p_compound = 0.55
+        self.p_compound = 0.65
         self.p_parallel = 0.4
         self.p_noinit = 0.15
         self.p_collide = 0.08       # reuse a segment name that exists elsewhere in the tree
@@ -274,17 +274,19 @@ def gen_nested(rng, kn):
         used_names.append(n)
         return n
 
+    cap = rng.randint(2, kn.max_states) if kn.max_states >= 2 else 1
+
     def mk_node(depth, siblings, path):
         count[0] += 1
         name = fresh_name(siblings, path)
         n = {'name': name, 'children': [], 'initial': [], 'pkey': False,
              'ignore': (rng.choice([False, True]) if rng.random() < kn.p_ignore else None),
              'on_enter': cbs(SLOT['on_enter']), 'on_exit': cbs(SLOT['on_exit']), 'local': []}
-        if depth < kn.max_depth and count[0] < kn.max_states and rng.random() < kn.p_compound:
+        if depth < kn.max_depth and count[0] < cap and rng.random() < kn.p_compound:
             k = rng.randint(1, kn.max_branch)
             names = []
             for _ in range(k):
-                if count[0] >= kn.max_states:
+                if count[0] >= cap:
                     break
                 ch = mk_node(depth + 1, names, path + [name])
                 names.append(ch['name'])
@@ -307,7 +309,7 @@ def gen_nested(rng, kn):
     nroots = rng.randint(1, kn.max_roots)
     rnames = []
     for _ in range(nroots):
-        if count[0] >= kn.max_states and d.roots:
+        if count[0] >= cap and d.roots:
             break
         r = mk_node(1, rnames, [])
         rnames.append(r['name'])
